@@ -108,7 +108,8 @@ CLAIMS.update({
    "contract-based deductive verification: loop invariants, SMT"),
  "C28": ("proof",
    "Deductive part: Set/Clear single-bit paths refine the abstract stored set exactly (see C07), which is the common denominator every other write path must match. Path equivalence itself "
-   "(bulk import by IDs, roaring import in both encodings, value imports vs Set) is covered only by the bounded stand-in, which replays the same model writes through different paths and compares all reads. " + BF,
+   "(bulk import by IDs, roaring import in both encodings, value imports vs Set) is covered only by the bounded stand-in, which replays the same model writes through different paths and compares all reads. " + BF +
+   " rcheck/pql adds the cluster level: time bits written through API.Import with time stamps (including stamps before 1970) and int values through API.ImportValue on 1-node and 3-node clusters must answer every time-range and value query like the same writes made with Set.",
    TRUST + "same trusted contracts as C07.",
    "contract-based deductive verification + bounded stand-in"),
 })
@@ -131,10 +132,10 @@ CLAIMS.update({
    "bounded exploration; the oracle is a hand-written majority model; nothing here is a proof.", "bounded stand-in"),
  "C21": ("exploration",
    "BOUNDED ONLY - resize planning (fragSources, resize job generation) is map/closure graph code outside the subset. " + BC +
-   "Clusters of 1-6 nodes, replicaN 0..5, two schemas, random available shards, every single add and remove: every (node,index,field,view,shard) newly owned has a source that owned it before and is not the removed node; a refusal only when some need has no surviving owner.",
+   "Clusters of 1-6 nodes, replicaN 0..5, two schemas, random available shards, every single add and remove: every (node,index,field,view,shard) newly owned has a source that owned it before and is not the removed node; a refusal only when some need has no surviving owner. Cleanup: the RESIZING->NORMAL transition is played through SetState and, for every non-coordinator node of adds and removes at replicaN 1..3, through mergeClusterStatus with the final membership; what survives is compared with the owner lists of the resulting cluster.",
    "bounded exploration; nothing here is a proof.", "bounded stand-in"),
  "C23": ("exploration",
-   "BOUNDED/EXHAUSTIVE ENUMERATION - the admission table is a package-level map consulted through API.validate: all 25 apiMethod constants x 4 cluster states are enumerated against the table in the property statement (exhaustive for that finite domain), and 27 exported API entry points are called on an API with nil holder/server in STARTING and RESIZING to show they refuse before touching data. Not a deductive proof: that every future entry point calls validate first is not shown.",
+   "BOUNDED/EXHAUSTIVE ENUMERATION - the admission table is a package-level map consulted through API.validate: all 25 apiMethod constants x 4 cluster states are enumerated against the table in the property statement (exhaustive for that finite domain), and 35 calls of exported API entry points (imports with every option combination, a remote query) are made on an API with nil holder/server in STARTING and RESIZING to show they refuse before touching data. Not a deductive proof: that every future entry point calls validate first is not shown.",
    "exhaustive over the finite decision table; entry-point coverage is by enumeration of the existing methods.", "exhaustive enumeration (bounded stand-in)"),
 })
 CLAIMS["C18"] = ("exploration",
@@ -165,10 +166,10 @@ CLAIMS["C25"] = (CLAIMS["C25"][0], CLAIMS["C25"][1] + " BOUNDED addition rcheck/
 
 CLAIMS.update({
  "C08": ("exploration",
-   "BOUNDED ONLY - restart behaviour is an I/O history over the data directory; no per-call contract expresses it. rcheck/restart: an in-process server is given a random schema (all field types and options, keys, trackExistence) and random acknowledged writes and schema deletions, is closed and reopened (once, and twice in a row), and schema, available shards and the answers of 150-400 read queries are compared before/after and against a map model; writes after the restart are included.",
+   "BOUNDED ONLY - restart behaviour is an I/O history over the data directory; no per-call contract expresses it. rcheck/restart: an in-process server is given a random schema (all field types and options, keys, trackExistence) and random acknowledged writes and schema deletions, is closed and reopened (once, and twice in a row), and schema, available shards and the answers of 150-400 read queries are compared before/after and against a map model; writes after the restart are included. Scripted cases add int fields around zero, a bulk ImportValue sent twice followed by ordinary writes, and attribute updates that empty an id.",
    "bounded exploration; nothing here is a proof.", "bounded stand-in"),
  "C30": ("exploration",
-   "BOUNDED ONLY - export/import run through CLI commands, HTTP and encoding/csv. rcheck/csvio: random set-field contents (keys on/off, several shards with a gap, boundary offsets, keys with commas/quotes/Unicode) are exported with the real ExportCommand and imported with the real ImportCommand into an empty field of the same options; bits and keys must be identical.",
+   "BOUNDED ONLY - export/import run through CLI commands, HTTP and encoding/csv. rcheck/csvio: random set-field contents (keys on/off, several shards with a gap, boundary offsets, keys with commas/quotes/Unicode/leading and trailing blanks; the export file pre-exists with longer stale content) are exported with the real ExportCommand and imported with the real ImportCommand into an empty field of the same options; bits and keys must be identical.",
    "bounded exploration; nothing here is a proof.", "bounded stand-in"),
 })
 
